@@ -11,9 +11,16 @@ SEQ_ALPHABET = "ACGT"
 
 # ----------------------------------------------------------------------------------------------
 # workload material
+# letters whose casefold() differs from lower(): used in ONE spelling only (no case variants are generated for them, the
+# three normalisations disagree about those), so "equal labels -> one taxon" is unambiguous for them
+NONASCII = ["wei\u00dfstorch", "\ufb01nch", "\u03c3\u03bf\u03c6\u03cc\u03c2", "stra\u00dfe"]
+
+
 def universe(rng):
     """label universe of one history: bases, some with case variants (ant / Ant / ANT)."""
     out = []
+    if rng.random() < 0.4:
+        out.extend(rng.sample(NONASCII, rng.randint(1, 2)))
     for b in rng.sample(BASES, rng.randint(4, 8)):
         out.append(b)
         r = rng.random()
